@@ -259,15 +259,29 @@ def newImportNames (specs : List ImportSpec) : List (String × String) :=
     if m.any (fun e => e.2 == name && e.1 != p) then m else mapSet m p name) m
 
 /-- `importNamesOf` (parser): an import without an explicit name is referred to by the name of the
-imported package, which need not be the last element of its path -/
+imported package, which need not be the last element of its path.  A blank import that had been
+given the last element of its path loses it again when one of the corrected names clashes with it:
+the name belongs to the import that can be referred to. -/
 def importNamesOf (specs : List ImportSpec) : List (String × String) :=
-  specs.foldl (fun m s => if s.alias == "" && s.pkgName != "" then mapSet m s.path s.pkgName else m)
+  let m := specs.foldl (fun m s => if s.alias == "" && s.pkgName != "" then mapSet m s.path s.pkgName else m)
     (newImportNames specs)
+  (specs.filter (fun s => s.alias == "_")).foldl (fun m s =>
+    match (m.find? (·.1 == s.path)).map (·.2) with
+    | some name => if m.any (fun e => e.1 != s.path && e.2 == name) then mapSet m s.path "_" else m
+    | none => m) m
 
-/-- `ImportNames.LookupPath`: Go iterates the map in random order; the model takes the first
-entry in list order and `lookupPathAmbiguous` says when the choice matters. -/
+/-- the least string of a list (`!ok || p < path` over all candidates) -/
+def leastPath : List String → Option String
+  | [] => none
+  | p :: ps =>
+    match leastPath ps with
+    | none => some p
+    | some q => if p ≤ q then some p else some q
+
+/-- `ImportNames.LookupPath`: Go iterates the map in random order and keeps the least path among
+those that bear the name; the blank name refers to nothing. -/
 def lookupPath (m : List (String × String)) (name : String) : Option String :=
-  (m.find? (·.2 == name)).map (·.1)
+  if name == "_" then none else leastPath ((m.filter (·.2 == name)).map (·.1))
 
 def lookupPathAmbiguous (m : List (String × String)) (name : String) : Bool :=
   ((m.filter (·.2 == name)).length) > 1
